@@ -177,6 +177,35 @@ def r6(ctx, prog):
     ctx.floor(R, 4)
 
 
+def r7(ctx, prog):
+    R = ctx.rule("C12.R7", "the walk over abandoned OS segments visits each once: the cursor pops os_list_count times from the *head* of abandoned_os_list and every visited "
+                           "segment is re-marked, so marking must append at the *tail* (new segment: next = NULL, becomes the tail; the head changes only when the list "
+                           "was empty) — with head insertion the same segment is popped every time and the others are never reported")
+    f = prog.fn("mi_arena_segment_os_mark_abandoned")
+    seg = f.param_id(0)
+    tails = [a for a, l, rhs, op in f.field_stores("abandoned_os_list_tail") if rhs is not None and rl.var_of(f, rhs) == f.alias_root(seg)]
+    ctx.check(R, len(tails) >= 1, f.where(tails[0]) if tails else f.where(), "the marked segment becomes the tail of abandoned_os_list", key="C12.R7:tail")
+    nexts = [(a, rhs) for a, l, rhs, op in f.field_stores("abandoned_os_next") if f.is_ref(f.nodes[l]["c"][0], seg) or rl.var_of(f, f.nodes[l]["c"][0]) == f.alias_root(seg)]
+    ctx.check(R, bool(nexts) and all(rhs is not None and rl.is_null_const(f, rhs) for a, rhs in nexts), f.where(nexts[0][0]) if nexts else f.where(),
+              "the marked segment has no successor (segment->abandoned_os_next = NULL)", key="C12.R7:next")
+    olds = {dd["d"] for _, dd in rl.local_decl(f, lambda dd: dd.get("init") is not None and f.mentions_field(dd["init"], "abandoned_os_list_tail"))}
+    was_empty = lambda e, pol: isinstance(e, int) and any(rl.fact_nonnull(f, e, not pol, rl.is_local(f, d)) for d in olds)
+    heads = [a for a, l, rhs, op in f.field_stores("abandoned_os_list")]
+    for a in heads:
+        w = f.cfg.guarded(f.cfg.pt(a), was_empty)
+        ctx.check(R, w is None, f.where(a), "the head of abandoned_os_list is changed only when the old tail was NULL (empty list)", key="C12.R7:head", witness=w)
+    g = prog.fn("mi_arena_segment_clear_abandoned_next_list")
+    pops = [c for c in g.calls("mi_arena_segment_os_clear_abandoned")]
+    okp = bool(pops)
+    for c in pops:
+        vals = rl.values_of(g, rl.arg(g, c, 0))
+        okp = okp and any(g.mentions_field(v, "abandoned_os_list") for v in vals)
+    ctx.check(R, okp, g.where(pops[0]) if pops else g.where(), "the cursor un-abandons the head of abandoned_os_list", key="C12.R7:pop")
+    if not heads or not pops:
+        ctx.broke("C12.R7: head store of mi_arena_segment_os_mark_abandoned / pop of the cursor not found")
+    ctx.floor(R, 4)
+
+
 def run(ctx):
     ctx.explanation = ("Static decision of C12's code-shaped necessary conditions: loop bounds and next-saving of the page walk, collect-before-inspect dominance, result discipline of all "
                        "indirect visitor calls, re-marking in the abandoned walk, free-map sizing against the bin table, index/bit split and cursor arithmetic. "
@@ -184,7 +213,7 @@ def run(ctx):
     for c in (["REL"] if ctx.tier == "quick" else ["REL", "SEC", "DBG"]):
         prog = ctx.prog(c)
         n0 = len(ctx.instances)
-        r1(ctx, prog); r2(ctx, prog); r3(ctx, prog); r4(ctx, prog); r5(ctx, prog); r6(ctx, prog)
+        r1(ctx, prog); r2(ctx, prog); r3(ctx, prog); r4(ctx, prog); r5(ctx, prog); r6(ctx, prog); r7(ctx, prog)
         if c != "REL":
             for i in ctx.instances[n0:]:
                 i["site"] += " [%s]" % c
